@@ -324,7 +324,8 @@ fn decode_on_small_stack(input: Vec<u8>, route: Route, what: &str, out: &mut Out
     let head = hex_short(&input, 48);
     let mark = alloc::mark();
     let handle = std::thread::Builder::new().stack_size(STACK).name("amf0-decode".into()).spawn(move || {
-        crate::fw::guarded(move || match route {
+        let t0 = crate::fw::thread_cpu_ns();
+        let r = crate::fw::guarded(move || match route {
             Route::Amf0 => {
                 let mut cur = std::io::Cursor::new(&input[..]);
                 let r = rml_amf0::deserialize(&mut cur);
@@ -351,7 +352,8 @@ fn decode_on_small_stack(input: Vec<u8>, route: Route, what: &str, out: &mut Out
                 drop(r);
                 (ok, n, peak)
             }
-        })
+        });
+        (r, crate::fw::thread_cpu_ns().saturating_sub(t0))
     });
     let handle = match handle {
         Ok(h) => h,
@@ -359,6 +361,18 @@ fn decode_on_small_stack(input: Vec<u8>, route: Route, what: &str, out: &mut Out
     };
     let r = handle.join();
     let ctx = || json!({"input": what, "length": len, "head": head, "route": route_name(route), "stack_bytes": STACK});
+    // "terminates": in time proportionate to the input - 4 CPU-seconds of the decoding thread plus
+    // 2 microseconds per input byte (a 16 MiB input decodes in well under a second), scaled by
+    // RMLV_SLOW_FACTOR under valgrind
+    let (r, cpu_ns) = match r {
+        Ok((r, c)) => (Ok(r), c),
+        Err(e) => (Err(e), 0),
+    };
+    let cpu_limit = crate::fw::call_cpu_limit_ns() + (crate::fw::call_cpu_limit_ns() / 4_000_000_000) * 2_000 * len as u64;
+    if cpu_ns > cpu_limit {
+        out.violation("decoding-time-out-of-all-proportion-to-the-input", json!({"thread_cpu_seconds": cpu_ns as f64 / 1e9, "limit_seconds": cpu_limit as f64 / 1e9, "context": ctx()}));
+        return;
+    }
     match r {
         Err(_) => out.violation("decode-thread-died", ctx()),
         Ok(Err((loc, msg))) => out.violation(&panic_signature(&loc, &msg), json!({"panic_at": loc, "panic_message": msg, "context": ctx()})),
@@ -559,7 +573,7 @@ impl Check for C14 {
     fn assumptions(&self) -> Vec<String> {
         vec![
             "2 MiB (Rust's default spawned-thread stack) is taken as 'an ordinary thread stack'".to_string(),
-            "memory bound: peak live allocation during the call <= 256 x input length + 256 KiB (one input byte 05 legitimately becomes a 56-byte value in a doubling Vec); the session route additionally buffers the wire bytes".to_string(),
+            "time bound: 4 CPU-seconds of the decoding thread + 2 microseconds per input byte; memory bound: peak live allocation during the call <= 256 x input length + 256 KiB (one input byte 05 legitimately becomes a 56-byte value in a doubling Vec); the session route additionally buffers the wire bytes".to_string(),
             "a worker killed by a signal while a case is open is attributed to that case (stack overflow = SIGABRT/SIGSEGV with 'overflowed its stack')".to_string(),
         ]
     }
